@@ -381,6 +381,8 @@ def gen_op(rng, st, cfg):
               "shuffle": rng.chance(0.5), "vseed": rng.randint(0, 10 ** 6), "row": rng.randint(0, 50)}
         if rng.chance(0.3):
             op["wide"] = rng.randint(0, 4)
+        op["style"] = {"letters": rng.chance(0.4), "omit_single": rng.chance(0.5), "intvals": rng.chance(0.4), "index": rng.chance(0.3),
+                       "wide": rng.randint(0, 4) if rng.chance(0.25) else None}
         if mode != "to_df" and rng.chance(fp * 2):
             op["damage"] = rng.choice(["drop_row", "dup_row", "nan"])
         return op
